@@ -9,6 +9,7 @@ SEEDS = {
  'C03a': ('C08', 'backmp11 history_impl: remembered configuration starts as all zeros instead of the initial state ids', 'first-ever entry taken under history in a machine with >= 2 regions'),
  'C04a': ('C04', 'backmp11 process_event_internal: the event pool is drained only after a direct call', 'event forwarded to a submachine whose behaviour raises an event on the submachine'),
  'C05a': ('C05', 'backmp11 is_event_deferred_visitor: |= became =', 'two active deferring states, the later-visited one with a conditional is_event_deferred returning false'),
+ 'C05b': ('C05', 'back/back11 do_handle_prio_msg_queue_deferred_queue: new deferral cycle only if handled == HANDLED_TRUE (was: TRUE bit set)', 'two regions: one takes the event and leaves the deferring state while the sibling guard-rejects it (result 3)'),
  'C06a': ('C06', 'back do_process_event: wrong De Morgan on the no_transition guard', 'process_event called directly on a contained submachine (or an enqueued unmatched event)'),
  'C07a': ('C07', 'back chain_row: bit test replaced by equality tests again', 'two-region submachine, one region takes while the sibling guard-rejects, outer row on the same event'),
  'C08a': ('C08', 'ShallowHistoryImpl::history_exit: store guarded by a comparison against the wrong array', 'three entries of the submachine, region back in its initial state at the second exit'),
